@@ -25,6 +25,7 @@ var (
 	repoDir  = "/repo"
 	verifDir = "/verif"
 	workDir  = "/verif/.work"
+	outDir   = "/verif"
 	verbose  = os.Getenv("VERIF_VERBOSE") != ""
 )
 
@@ -479,6 +480,13 @@ func cmdReplay(path string) int {
 }
 
 func main() {
+	if r := os.Getenv("VERIF_REPO"); r != "" {
+		repoDir = r
+	}
+	if o := os.Getenv("VERIF_OUT"); o != "" {
+		outDir = o
+		workDir = filepath.Join(o, ".work")
+	}
 	if pf := os.Getenv("VERIF_CPUPROFILE"); pf != "" {
 		f, _ := os.Create(pf)
 		pprof.StartCPUProfile(f)
